@@ -4,8 +4,6 @@ CONSTANTS
   Runtimes = {"threaded", "tokio"}
   MaxReq = 1
   Dev = {}
-  SigAfter = 0
-  MaxLen = 0
 SPECIFICATION Spec
 INVARIANTS TypeOK Inv_PortFree Inv_ServingBefore Inv_NoTruncation Inv_Owned Inv_DispatchedKept Inv_WakeUnserved
 PROPERTIES Live_RunReturns Live_Accepts
